@@ -18,11 +18,14 @@ RUN_TIMEOUT = 90
 EXTRA_FLAGS = ['-fcray-pointer']
 
 
-def dimensions(names):
+def dimensions(names, aliases=None):
     from loki import Dimension
+    aliases = aliases or {}
+    ha = (aliases['hsize'],) if aliases.get('hsize') else None
+    va = (aliases['vsize'],) if aliases.get('vsize') else None
     horizontal = Dimension(name='horizontal', size=names['hsize'], index=names['hidx'],
-                           bounds=(names['hlo'], names['hup']))
-    vertical = Dimension(name='vertical', size=names['vsize'], index=names['vidx'])
+                           bounds=(names['hlo'], names['hup']), aliases=ha)
+    vertical = Dimension(name='vertical', size=names['vsize'], index=names['vidx'], aliases=va)
     block_dim = Dimension(name='block_dim', size=names['bsize'], index=names['bidx'])
     return horizontal, vertical, block_dim
 
@@ -68,12 +71,27 @@ def _kwargs(kw, dims):
     return out
 
 
+def root_cause(exc):
+    seen = set()
+    while (exc.__cause__ or exc.__context__) is not None and id(exc) not in seen:
+        seen.add(id(exc))
+        exc = exc.__cause__ or exc.__context__
+    return exc
+
+
 def innermost_loki_frame(exc):
     name = '?'
     for fr in traceback.extract_tb(exc.__traceback__):
         if '/loki/' in fr.filename:
             name = Path(fr.filename).stem + '.' + fr.name
     return name
+
+
+def exc_key(exc):
+    """(mechanism key, message) of an exception raised by Loki: type and innermost loki frame of the root cause"""
+    root = root_cause(exc)
+    msg = re.sub(r'\s+', ' ', f'{type(root).__name__}: {root}')[:400]
+    return f'{type(root).__name__}@{innermost_loki_frame(root)}', msg
 
 
 def ir_snapshot(scheduler):
@@ -95,7 +113,7 @@ def transform(case, root, out, spec):
     out = Path(out)
     shutil.rmtree(out, ignore_errors=True)
     out.mkdir(parents=True)
-    dims = dimensions(case.names)
+    dims = dimensions(case.names, getattr(case, 'aliases', None))
     res = {'files': None, 'changed': [], 'exc': None, 'applied': 0}
     try:
         sched = make_scheduler(case, root, out)
@@ -110,8 +128,8 @@ def transform(case, root, out, spec):
             sched.process(trafo)
             res['applied'] += 1
         except Exception as e:
-            msg = re.sub(r'\s+', ' ', f'{type(e).__name__}: {e}')[:400]
-            res['exc'] = (f'{type(e).__name__}@{innermost_loki_frame(e)}', msg)
+            res['exc'] = exc_key(e)
+            res['failed_step'] = cname
             return res
     after = ir_snapshot(sched)
     res['changed'] = sorted(k for k in after if after[k] != before.get(k))
